@@ -118,7 +118,11 @@ class WaitGate(raw_types.Gate):
         return f'WaitGate({self.duration})'
 
     def __repr__(self) -> str:
-        return f'cirq.WaitGate({repr(self.duration)})'
+        if self._qid_shape == (2,):
+            return f'cirq.WaitGate({repr(self.duration)})'
+        if all(d == 2 for d in self._qid_shape):
+            return f'cirq.WaitGate({repr(self.duration)}, num_qubits={len(self._qid_shape)})'
+        return f'cirq.WaitGate({repr(self.duration)}, qid_shape={self._qid_shape!r})'
 
     def _json_dict_(self) -> dict[str, Any]:
         d = protocols.obj_to_dict_helper(self, ['duration'])
